@@ -51,19 +51,20 @@ func (d *detRand) Read(p []byte) (int, error) {
 
 // Fixtures holds the harness PKI.
 type Fixtures struct {
-	Roots     *x509.CertPool
-	CACert    *x509.Certificate
-	caKey     *ecdsa.PrivateKey
-	ECDSA     tls.Certificate // valid, names below
-	RSA       tls.Certificate
-	Ed25519   tls.Certificate
-	WrongName tls.Certificate // valid chain, name other.invalid only
-	Untrusted tls.Certificate // right names, signed by a CA not in Roots
-	Expired   tls.Certificate
-	NotYet    tls.Certificate
-	Public    tls.Certificate // valid only for public.example (ECH public name)
-	Chain3    tls.Certificate // leaf + 2 extra certs in the chain (bigger Certificate message)
-	LongLived tls.Certificate // valid for the CA's whole lifetime (scenarios that cannot fix the clock: Roller)
+	Roots        *x509.CertPool
+	CACert       *x509.Certificate
+	caKey        *ecdsa.PrivateKey
+	ECDSA        tls.Certificate // valid, names below
+	RSA          tls.Certificate
+	Ed25519      tls.Certificate
+	WrongName    tls.Certificate // valid chain, name other.invalid only
+	Untrusted    tls.Certificate // right names, signed by a CA not in Roots
+	Expired      tls.Certificate
+	NotYet       tls.Certificate
+	Public       tls.Certificate // valid only for public.example (ECH public name)
+	Chain3       tls.Certificate // leaf + 2 extra certs in the chain (bigger Certificate message)
+	LongLived    tls.Certificate // valid for the CA's whole lifetime (scenarios that cannot fix the clock: Roller)
+	LongLivedRSA tls.Certificate
 }
 
 // Names every "valid" leaf covers.
@@ -144,6 +145,7 @@ func build() *Fixtures {
 	f.Public = leaf(f.CACert, f.caKey, "public", &ek.PublicKey, ek, []string{"public.example"}, nb, na)
 	f.Chain3 = leaf(f.CACert, f.caKey, "chain3", &ek.PublicKey, ek, Names, nb, na, f.CACert.Raw, oca.Raw)
 	f.LongLived = leaf(f.CACert, f.caKey, "long lived", &ek.PublicKey, ek, Names, Now.AddDate(-5, 0, 0), Now.AddDate(10, 0, 0))
+	f.LongLivedRSA = leaf(f.CACert, f.caKey, "long lived rsa", &rk.PublicKey, rk, Names, Now.AddDate(-5, 0, 0), Now.AddDate(10, 0, 0))
 	return f
 }
 
